@@ -223,6 +223,26 @@ func c14Pathological() []*load.Case {
 	add("identity-cycle", hdr("a")+"identity i { base j; } identity j { base i; } leaf l { type identityref { base i; } } }", nil)
 	add("leafref-self", hdr("a")+"leaf l { type leafref { path \"../l\"; } } }", nil)
 	add("leafref-cycle", hdr("a")+"leaf l { type leafref { path \"../m\"; } } leaf m { type leafref { path \"../l\"; } } }", nil)
+	// multi-part ranges and lengths with bounds beyond the signed 64-bit range, out of order, overlapping, repeated
+	for i, rg := range []string{"1..10 | 9223372036854775808..18446744073709551615", "9223372036854775807 | 9223372036854775808", "0..1 | 18446744073709551615", "min..10 | 9223372036854775808..max",
+		"10..1", "1..5 | 3..8", "5 | 5", "1..2 | 1..2", "-9223372036854775809..0", "1..18446744073709551616", "max..min | 1", "1 | 2 | 3 | 99999999999999999999", "0.5..1.5 | 1.6..9223372036854775808.5"} {
+		add(fmt.Sprintf("range-parts-%d", i), hdr("a")+"leaf l { type uint64 { range \""+rg+"\"; } } leaf m { type string { length \""+rg+"\"; } } leaf n { type int64 { range \""+rg+"\"; } } leaf o { type decimal64 { fraction-digits 1; range \""+rg+"\"; } } typedef t { type uint32 { range \""+rg+"\"; } } leaf p { type t { range \"1..2\"; } } }", nil)
+	}
+	// a module that carries a belongs-to statement and includes submodules that use their belongs-to prefix
+	add("module-with-belongs-to-includes", hdr("a")+"belongs-to y { prefix yy; } include s1; typedef t { type string; } grouping g { leaf gl { type string; } } identity i; }", map[string]string{
+		"s1": "submodule s1 { belongs-to a { prefix mm; } include s2; leaf x { type mm:t; } container c { uses mm:g; } }",
+		"s2": "submodule s2 { belongs-to a { prefix mm; } leaf y { type mm:t; } leaf z { type identityref { base mm:i; } } }"})
+	add("submodule-of-submodule-prefix", hdr("a")+"include s1; typedef t { type string; } }", map[string]string{
+		"s1": "submodule s1 { belongs-to a { prefix mm; } include s2; leaf x { type mm:t; } }",
+		"s2": "submodule s2 { belongs-to s1 { prefix ss; } leaf y { type ss:t; } }"})
+	// leafref paths of unusual form
+	for i, pth := range []string{"../../item[id=current()/../../which/weight", "../item[", "[", "../x[1]", "../x[id='a']/y", "/a:c/a:l[a:k=current()/../r]/a:v", "../x]", "../x[[", "../x[]", "..", ".", "../", "//", "../ x", "../x/..", "current()", "deref(../x)/../y", " ../x ", "../x | ../y", "../a:x", "../zz:x", "../x/", "../1x", "../x\u00e9"} {
+		add(fmt.Sprintf("leafref-path-form-%d", i), hdr("a")+"leaf x { type string; } leaf r { type string; } container c { list l { key k; leaf k { type string; } leaf v { type string; } } } leaf lr { type leafref { path \""+pth+"\"; } } container d { leaf lr2 { type leafref { path \""+pth+"\"; } } } }", nil)
+	}
+	// must / when / unique / key / default arguments of unusual form
+	for i, a := range []string{"", " ", "((", "))", "'", "a'b", "a or", "a[", strings.Repeat("a/", 300) + "b", "\u00e9 = 1", "a = 'x' and (b", "1 2 3"} {
+		add(fmt.Sprintf("expr-form-%d", i), hdr("a")+"leaf a { type string; } list q { key \"k\"; unique \""+a+"\"; leaf k { type string; } leaf u { type string; when \""+a+"\"; must \""+a+"\"; } } leaf b { type int32; default \""+a+"\"; } }", nil)
+	}
 	// a third party pointing into a cycle that is harmless on its own
 	add("leafref-into-self", hdr("a")+"leaf l { type leafref { path \"../l\"; } } leaf o { type leafref { path \"../l\"; } } leaf-list p { type leafref { path \"../o\"; } } }", nil)
 	add("leafref-into-cycle", hdr("a")+"leaf l { type leafref { path \"../m\"; } } leaf m { type leafref { path \"../l\"; } } leaf o { type leafref { path \"../m\"; } } container c { leaf q { type leafref { path \"../../o\"; } } } }", nil)
